@@ -408,3 +408,8 @@ pub fn abrupt_prelude(rng: &mut Rng, sc: &ConnScenario) -> ConnScenario {
     p.cap_ns = p.cap_ns.min(secs(120)).max(secs(60));
     p
 }
+
+/// Client Information as clients really send it: any view distance a signed byte can hold, every legal ordinal.
+pub fn gen_info(rng: &mut Rng) -> (i8, i32, i32, i32, u8) {
+    (*rng.pick(&[-128i8, -1, 0, 2, 10, 32, 127]), rng.below(3) as i32, rng.below(2) as i32, rng.below(3) as i32, rng.below(256) as u8)
+}
